@@ -126,6 +126,8 @@ pub struct SentPacket {
 pub struct World {
     pub height: u64,
     pub time_s: u64,
+    /// sub-second part of the block time in nanoseconds (0..1e9); block time = time_s seconds + time_ns
+    pub time_ns: u64,
     pub bank: BTreeMap<(String, String), u128>,
     pub contracts: BTreeMap<String, Instance>,
     /// `WasmMsg::Execute` dispatched to (or `BankMsg::Send` to) an address in this set fails. Fault injection.
@@ -229,6 +231,7 @@ impl Default for World {
         World {
             height: 10,
             time_s: 1000,
+            time_ns: 0,
             bank: BTreeMap::new(),
             contracts: BTreeMap::new(),
             failing: BTreeSet::new(),
@@ -245,6 +248,7 @@ impl Hash for World {
     fn hash<H: Hasher>(&self, h: &mut H) {
         self.height.hash(h);
         self.time_s.hash(h);
+        self.time_ns.hash(h);
         self.bank.len().hash(h);
         for (k, v) in &self.bank {
             if *v != 0 {
@@ -306,7 +310,7 @@ impl World {
     pub fn block(&self) -> BlockInfo {
         BlockInfo {
             height: self.height,
-            time: Timestamp::from_seconds(self.time_s),
+            time: Timestamp::from_seconds(self.time_s).plus_nanos(self.time_ns),
             chain_id: CHAIN_ID.to_string(),
         }
     }
@@ -314,6 +318,14 @@ impl World {
     pub fn advance(&mut self, blocks: u64, secs: u64) {
         self.height += blocks;
         self.time_s += secs;
+    }
+
+    /// advance by a duration given in nanoseconds (sub-second block times)
+    pub fn advance_nanos(&mut self, blocks: u64, nanos: u64) {
+        self.height += blocks;
+        let total = self.time_ns + nanos;
+        self.time_s += total / 1_000_000_000;
+        self.time_ns = total % 1_000_000_000;
     }
 
     pub fn balance(&self, addr: &str, denom: &str) -> u128 {
